@@ -32,6 +32,12 @@ impl<'a> DirectEventAccessor<'a> {
         }
     }
 
+    /// Get an unsigned payload field that does not fit i64 (kept as its decimal text in memory)
+    #[inline]
+    pub fn get_field_as_u64(&self, field: &str) -> Option<u64> {
+        self.event.payload.get(field).and_then(|v| v.as_u64())
+    }
+
     /// Get a float payload field as f64 (floats are never coerced to i64)
     #[inline]
     pub fn get_field_as_f64(&self, field: &str) -> Option<f64> {
